@@ -828,3 +828,192 @@ def validate_merge_vectors(ctx):
         (ctx.passed if n == len(cases) else ctx.fail)("translator validation: the MIR interpreter reproduces the repository's merge_extents test vectors", "%d/%d" % (n, len(cases)))
     ctx.validated = getattr(ctx, "validated", 0) + n
     return n
+
+
+def _buf_model(eng):
+    """Vec<u8> buffers and slices of them: (buffer identity, start, length) -- contents are Kani's business"""
+    S = eng.add_summary
+    S(r"^std::vec::from_elem::<u8>$", lambda e, st, c, a, d: Outcome(OpaqueV("Vec<u8>", "buf", {"buf": "buf", "lo": IntV(0, "usize"), "len": a[1]})))
+
+    def s_index(eng, st, callee, args, dty):
+        v = deref_ref(eng, st, args[0])
+        r = args[1]                      # RangeTo { end }
+        end = r.fields[0]
+        sl = OpaqueV("[u8]", None, {"buf": v.attrs["buf"], "lo": v.attrs["lo"], "len": end})
+        # slicing beyond the buffer panics
+        return [Outcome(RefV(Cell(sl)), [end.t <= v.attrs["len"].t]),
+                Outcome(diverge="slice index out of range", conds=[end.t > v.attrs["len"].t])]
+    S(r"^<Vec<u8> as Index(Mut)?<RangeTo<usize>>>::index(_mut)?$", s_index)
+
+
+def lemma_uspace_loops(ctx):
+    """copy_range_uspace / copy_bytes_uspace: one inductive step from an arbitrary loop state, counts and offsets only
+    (the byte-accurate, bounded version of the same claims is the Kani harness set of C05)."""
+    from props.cfg import loop_header
+    from props.p_copy import _loop_obligations
+    # ---------------- copy_range_uspace
+    eng = ctx.engine("libfs", loop_bound=2)
+    install_log_off(eng)
+    _buf_model(eng)
+
+    def s_pread(eng, st, callee, args, dty):
+        b = deref_ref(eng, st, args[1])
+        k = eng.fresh_int(st, "usize", "rlen")
+        ev = [file_id(args[0], eng, st), b.attrs["buf"], b.attrs["lo"], b.attrs["len"], args[2]]
+        return [Outcome(ok(k), [k.t <= b.attrs["len"].t], events=[Event("pread", ev, k)]),
+                Outcome(AggV("Result", 1, [OpaqueV("Errno")], "Err"), events=[Event("pread", ev, "err")])]
+    eng.add_summary(r"^rustix::io::pread::<", s_pread)
+
+    def s_pwrite(eng, st, callee, args, dty):
+        b = deref_ref(eng, st, args[1])
+        k = eng.fresh_int(st, "usize", "wlen")
+        ev = [file_id(args[0], eng, st), b.attrs["buf"], b.attrs["lo"], b.attrs["len"], args[2]]
+        return [Outcome(ok(k), [k.t <= b.attrs["len"].t], events=[Event("pwrite", ev, k)]),
+                Outcome(AggV("Result", 1, [OpaqueV("Errno")], "Err"), events=[Event("pwrite", ev, "err")])]
+    eng.add_summary(r"^rustix::io::pwrite::<", s_pwrite)
+    fn = fn_named(eng.funcs, "copy_range_uspace")
+    st = State()
+    n = eng.fresh_int(st, "usize", "nbytes")
+    off = eng.fresh_int(st, "usize", "off")
+    st.pc += [n.t >= 1, off.t + n.t <= OFF_MAX]
+    l_written = dbg_local(fn, "written")
+    spec = LoopSpec(fn, loop_header(fn), lambda e, s, fr: fr.locals[l_written].v.t <= n.t)
+    install_loop(eng, spec)
+    paths = eng.run(fn.name, [RefV(Cell(OpaqueV("std::fs::File", "infd"))), RefV(Cell(OpaqueV("std::fs::File", "outfd"))), n, off], st)
+    ctx.paths += len(paths)
+    _loop_obligations(ctx, spec, "copy_range_uspace invariant written<=nbytes")
+    back = 0
+    for p in paths:
+        if p.status == "panic":
+            ctx.fail("C05: copy_range_uspace does not panic (no out-of-range slice, no overflow)", p.msg)
+            continue
+        evs = list(p.trace)
+        idx = [i for i, e in enumerate(evs) if e.name == "loop-havoc"]
+        it = evs[idx[0] + 1:] if idx else evs
+        w0 = evs[idx[0]].info["locals"][l_written] if idx else IntV(0, "usize")
+        rd = [e for e in it if e.name == "pread"]
+        wr = [e for e in it if e.name == "pwrite"]
+        for e in rd:
+            ctx.lemma(eng, "C05: the fallback reads from the source at off+written, at most the remaining bytes, at least one", p.pc,
+                      z3.And(e.args[4].t == off.t + w0.t, e.args[3].t >= 1, e.args[3].t <= n.t - w0.t, e.args[2].t == 0))
+            if e.args[0] != "infd":
+                ctx.fail("C05: the fallback reads from the source descriptor", str(e.args[0]))
+        for e in wr:
+            r = rd[0].ret
+            ctx.lemma(eng, "C05: the fallback writes exactly the bytes just read (same buffer start, rlen bytes) at the same offset", p.pc,
+                      z3.And(e.args[4].t == off.t + w0.t, e.args[3].t == r.t, e.args[2].t == 0))
+            if e.args[0] != "outfd":
+                ctx.fail("C05: the fallback writes to the destination descriptor", str(e.args[0]))
+        if p.status == "loop-back":
+            back += 1
+            fr = p.frames[-1]
+            r, w = rd[0].ret, wr[0].ret
+            ctx.lemma(eng, "C05: an iteration that continues wrote everything it read and advances by exactly that count (>= 1)", p.pc,
+                      z3.And(w.t == r.t, r.t >= 1, fr.locals[l_written].v.t == w0.t + r.t))
+        elif p.status == "return":
+            if is_ok(p.ret):
+                ctx.lemma(eng, "C05: copy_range_uspace returns Ok only with every requested byte copied", p.pc, p.ret.fields[0].t == n.t)
+                for e in rd + wr:
+                    if is_errev(e):
+                        ctx.fail("C04/C05: a failed pread/pwrite makes copy_range_uspace fail", str(trace_names(p)))
+            else:
+                # errors are legitimate only for: failed call, zero read (premature EOF), short write
+                why = [e for e in rd + wr if is_errev(e)]
+                if not why:
+                    r = rd[0].ret if rd else None
+                    w = wr[0].ret if wr else None
+                    claim = (r.t == 0) if (r is not None and w is None) else ((w.t < r.t) if (r is not None and w is not None) else z3.BoolVal(False))
+                    ctx.lemma(eng, "C05: copy_range_uspace fails without a failed call only on premature EOF or a short write", p.pc, claim)
+    (ctx.passed if back else ctx.fail)("witness: copy_range_uspace loop body", "")
+    # ---------------- copy_bytes_uspace
+    eng = ctx.engine("libfs", loop_bound=2)
+    install_log_off(eng)
+    _buf_model(eng)
+
+    def s_read(eng, st, callee, args, dty):
+        b = deref_ref(eng, st, args[1])
+        k = eng.fresh_int(st, "usize", "len")
+        f = deref_ref(eng, st, args[0])
+        ev = [file_id(f, eng, st), b.attrs["buf"], b.attrs["lo"], b.attrs["len"]]
+        intr = OpaqueV("std::io::Error", None, {"kind": "Interrupted"})
+        other = OpaqueV("std::io::Error", None, {"kind": "Other"})
+        return [Outcome(ok(k), [k.t <= b.attrs["len"].t], events=[Event("read", ev, k)]),
+                Outcome(AggV("Result", 1, [intr], "Err"), events=[Event("read", ev, "eintr")]),
+                Outcome(AggV("Result", 1, [other], "Err"), events=[Event("read", ev, "err")])]
+    eng.add_summary(r"^<&File as std::io::Read>::read$", s_read)
+
+    def s_write_all(eng, st, callee, args, dty):
+        b = deref_ref(eng, st, args[1])
+        f = deref_ref(eng, st, args[0])
+        ev = [file_id(f, eng, st), b.attrs["buf"], b.attrs["lo"], b.attrs["len"]]
+        return [Outcome(ok(), events=[Event("write_all", ev, "ok")]),
+                Outcome(AggV("Result", 1, [OpaqueV("std::io::Error", None, {"kind": "Other"})], "Err"), events=[Event("write_all", ev, "err")])]
+    eng.add_summary(r"^<&File as std::io::Write>::write_all$", s_write_all)
+    eng.add_summary(r"^std::io::Error::kind$", lambda e, st, c, a, d: Outcome(OpaqueV("ErrorKind", None, {"kind": deref_ref(e, st, a[0]).attrs["kind"]})))
+
+    def s_kind_eq(eng, st, callee, args, dty):
+        def kind(v):
+            v = deref_ref(eng, st, v)
+            if isinstance(v, OpaqueV) and "kind" in v.attrs:
+                return v.attrs["kind"]
+            if isinstance(v, AggV):
+                return v.vname if isinstance(v.vname, str) else v.ty.split("::")[-1]
+            return re.sub(r".*::", "", getattr(v, "name", ""))
+        return Outcome(BoolV(kind(args[0]) == kind(args[1])))
+    eng.add_summary(r"^<ErrorKind as PartialEq>::eq$", s_kind_eq)
+    fn = fn_named(eng.funcs, "copy_bytes_uspace")
+    st = State()
+    n = eng.fresh_int(st, "usize", "nbytes")
+    st.pc += [n.t >= 1]
+    l_written = dbg_local(fn, "written")
+    spec = LoopSpec(fn, loop_header(fn), lambda e, s, fr: fr.locals[l_written].v.t <= n.t)
+    install_loop(eng, spec)
+    paths = eng.run(fn.name, [RefV(Cell(OpaqueV("std::fs::File", "infd"))), RefV(Cell(OpaqueV("std::fs::File", "outfd"))), n], st)
+    ctx.paths += len(paths)
+    _loop_obligations(ctx, spec, "copy_bytes_uspace invariant written<=nbytes")
+    back = eintr = 0
+    for p in paths:
+        if p.status == "panic":
+            ctx.fail("C05: copy_bytes_uspace does not panic", p.msg)
+            continue
+        evs = list(p.trace)
+        idx = [i for i, e in enumerate(evs) if e.name == "loop-havoc"]
+        it = evs[idx[0] + 1:] if idx else evs
+        w0 = evs[idx[0]].info["locals"][l_written] if idx else IntV(0, "usize")
+        rd = [e for e in it if e.name == "read"]
+        wr = [e for e in it if e.name == "write_all"]
+        for e in rd:
+            ctx.lemma(eng, "C05: the cursor fallback reads at most the remaining bytes, at least one, into the buffer start", p.pc,
+                      z3.And(e.args[3].t >= 1, e.args[3].t <= n.t - w0.t, e.args[2].t == 0))
+            if e.args[0] != "infd":
+                ctx.fail("C05: the cursor fallback reads from the source descriptor", str(e.args[0]))
+        for e in wr:
+            if not isinstance(rd[0].ret, IntV):
+                ctx.fail("C05: nothing is written after a failed read", str(trace_names(p)))
+                continue
+            ctx.lemma(eng, "C05: the cursor fallback writes exactly the bytes just read (write_all of buf[..len])", p.pc,
+                      z3.And(e.args[3].t == rd[0].ret.t, e.args[2].t == 0))
+            if e.args[0] != "outfd":
+                ctx.fail("C05: the cursor fallback writes to the destination descriptor", str(e.args[0]))
+        if p.status == "loop-back":
+            fr = p.frames[-1]
+            if rd and rd[0].ret == "eintr":
+                eintr += 1
+                ctx.lemma(eng, "C05: an interrupted read is retried without counting or writing anything", p.pc, fr.locals[l_written].v.t == w0.t)
+                if wr:
+                    ctx.fail("C05: an interrupted read is retried without counting or writing anything", str(trace_names(p)))
+            else:
+                back += 1
+                ctx.lemma(eng, "C05: a completed iteration advances by exactly the bytes read and written (>= 1)", p.pc,
+                          z3.And(rd[0].ret.t >= 1, fr.locals[l_written].v.t == w0.t + rd[0].ret.t))
+                if len(wr) != 1:
+                    ctx.fail("C05: every successful read is followed by one write_all", str(trace_names(p)))
+        elif p.status == "return":
+            if is_ok(p.ret):
+                ctx.lemma(eng, "C05: copy_bytes_uspace returns Ok only with every requested byte copied", p.pc, p.ret.fields[0].t == n.t)
+            bad = [e for e in it if isinstance(e.ret, str) and e.ret == "err"]
+            if bad and not is_err(p.ret):
+                ctx.fail("C04/C05: a failed read/write makes copy_bytes_uspace fail", str(trace_names(p)))
+    (ctx.passed if back else ctx.fail)("witness: copy_bytes_uspace loop body", "")
+    (ctx.passed if eintr else ctx.fail)("witness: EINTR retry path", "")
+    ctx.bounds = "one inductive step from an arbitrary loop state: any request size, any offset, any short read/write count, EINTR, failures"
